@@ -471,7 +471,8 @@ func (h *histRun) exec(idx int, sp *HistSpec) (o outcome) {
 		}
 		return outcome{Val: renderAny(tgt), Err: ec, Extra: semValue(err)}
 	case hkFormat:
-		v := jsontext.Value(sp.Input)
+		orig := []byte(sp.Input)
+		v := jsontext.Value(orig)
 		eo := sp.Opts.Enc
 		fo := eo.options()
 		var err error
@@ -487,11 +488,31 @@ func (h *histRun) exec(idx int, sp *HistSpec) (o outcome) {
 		case 4:
 			return outcome{Extra: fmt.Sprint(v.IsValid(jsontext.AllowInvalidUTF8(eo.AllowUTF8), jsontext.AllowDuplicateNames(eo.AllowDup)))}
 		case 5:
-			dst, e2 := jsontext.AppendFormat([]byte("prefix:"), sp.Input, fo...)
+			if len(sp.Input)%2 == 0 {
+				dst, e2 := jsontext.AppendFormat([]byte("prefix:"), sp.Input, fo...)
+				h.keep(idx, "AppendFormat result", dst)
+				return outcome{Out: string(dst), Err: classify(e2)}
+			}
+			// nil dst, byte-slice source that is compacted first (so it may
+			// already be in the requested format); afterwards the caller
+			// reuses its source buffer
+			src := jsontext.Value(sp.Input)
+			src.Compact()
+			dst, e2 := jsontext.AppendFormat(nil, []byte(src), fo...)
+			res := string(dst)
+			for i := range src {
+				src[i] = '#'
+			}
+			if string(dst) != res {
+				return outcome{Out: res, Err: classify(e2), Extra: "RESULT CHANGED WHEN THE INPUT BUFFER WAS OVERWRITTEN: AppendFormat result " + clipStr(string(dst), 80)}
+			}
 			h.keep(idx, "AppendFormat result", dst)
-			return outcome{Out: string(dst), Err: classify(e2)}
+			return outcome{Out: res, Err: classify(e2)}
 		}
 		h.keep(idx, "formatted value", v)
+		// the buffer the caller passed in still belongs to the caller: whatever it
+		// holds now must not be touched by later calls
+		h.keep(idx, "caller's original buffer after Format", orig)
 		return outcome{Out: string(v), Err: classify(err)}
 	case hkV1:
 		if sp.Sub == 0 {
@@ -797,7 +818,11 @@ func (sc *Hist) Run(t *core.Tape, env *Env) (any, []core.Violation) {
 			report("C18", "C18/panic-only-inside-history", hkNames[p.Specs[i].Kind], "spec %d panics inside the history but not alone: %s", i, got[i].Panic)
 			return p, viols
 		}
-		if strings.Contains(got[i].Extra, "CHANGED WHEN THE INPUT BUFFER WAS OVERWRITTEN") {
+		if strings.Contains(got[i].Extra, "RESULT CHANGED WHEN THE INPUT BUFFER WAS OVERWRITTEN") {
+			if report("C18", "C18/result-aliases-input-buffer", hkNames[p.Specs[i].Kind], "spec %d (%s): %s", i, p.Specs[i].Desc, got[i].Extra) {
+				return p, viols
+			}
+		} else if strings.Contains(got[i].Extra, "CHANGED WHEN THE INPUT BUFFER WAS OVERWRITTEN") {
 			if report("C18", "C18/result-aliases-input-buffer", hkNames[p.Specs[i].Kind], "spec %d (%s): %s", i, p.Specs[i].Desc, got[i].Extra) {
 				return p, viols
 			}
